@@ -88,19 +88,42 @@ static int gzip_read_options(sqfs_compressor_t *base, sqfs_file_t *file)
 	if (ret)
 		return ret;
 
-	gzip->opt.level = le32toh(opt.level);
-	gzip->opt.window = le16toh(opt.window);
-	gzip->opt.strategies = le16toh(opt.strategies);
+	opt.level = le32toh(opt.level);
+	opt.window = le16toh(opt.window);
+	opt.strategies = le16toh(opt.strategies);
 
-	if (gzip->opt.level < 1 || gzip->opt.level > 9)
+	if (opt.level < 1 || opt.level > 9)
 		return SQFS_ERROR_UNSUPPORTED;
 
-	if (gzip->opt.window < 8 || gzip->opt.window > 15)
+	if (opt.window < 8 || opt.window > 15)
 		return SQFS_ERROR_UNSUPPORTED;
 
-	if (gzip->opt.strategies & ~SQFS_COMP_FLAG_GZIP_ALL)
+	if (opt.strategies & ~SQFS_COMP_FLAG_GZIP_ALL)
 		return SQFS_ERROR_UNSUPPORTED;
 
+	if (gzip->compress && (opt.level != gzip->opt.level ||
+			       opt.window != gzip->opt.window)) {
+		/* the stream has to follow the options, a copy is set
+		   up from them */
+		deflateEnd(&gzip->strm);
+		memset(&gzip->strm, 0, sizeof(gzip->strm));
+
+		ret = deflateInit2(&gzip->strm, opt.level, Z_DEFLATED,
+				   opt.window, 8, Z_DEFAULT_STRATEGY);
+		if (ret != Z_OK) {
+			memset(&gzip->strm, 0, sizeof(gzip->strm));
+
+			ret = deflateInit2(&gzip->strm, gzip->opt.level,
+					   Z_DEFLATED, gzip->opt.window, 8,
+					   Z_DEFAULT_STRATEGY);
+			if (ret != Z_OK)
+				memset(&gzip->strm, 0, sizeof(gzip->strm));
+
+			return SQFS_ERROR_COMPRESSOR;
+		}
+	}
+
+	gzip->opt = opt;
 	return 0;
 }
 
